@@ -14,6 +14,13 @@ Theorem C07_holds : forall c, C07.wf c = true -> C07.kf c = 0%N -> C07.spec c (C
 Proof. exact C07_holds_proof. Qed.
 Print Assumptions C07_holds.
 
+(* known finding 1 (KNOWN_FINDINGS): /a and /b are two names of one inode of mode 0655 and the
+   line for /a says mod=o-r: /b is written as a hard link to /a, whose header says 0651, so the
+   extracted /b has mode 0651 although nothing overrides /b *)
+Theorem C07_refuted_1 : exists c, C07.wf c = true /\ C07.kf c = 1%N /\ C07.spec c (C07.model c) = false.
+Proof. exact refuted_1. Qed.
+Print Assumptions C07_refuted_1.
+
 (* the hypotheses of C07_holds are satisfiable by a non-trivial case (absent directory with a
    symbolic mod=, block device 8:300 with an xattr, 300-byte symlink) *)
 Theorem C07_domain_inhabited : C07.wf example_case = true /\ C07.kf example_case = 0
